@@ -210,3 +210,8 @@ Definition add_days (old_days days : Z) : res Z :=
   if in_i32b (old_days + days) then Ok (old_days + days) else Err (EOor NCustom 0 0 0).
 Definition sub_days (old_days days : Z) : res Z :=
   if in_i32b (old_days - days) then Ok (old_days - days) else Err (EOor NCustom 0 0 0).
+
+(* numeric arms of format_date_part used by C02: q, e (Sunday-first, 1-based), eeeeeee (Monday-first, 1-based) *)
+Definition fmt_quarter (days : Z) : Z := let '(_, month, _) := days_to_date days in (month - 1) / 3 + 1.
+Definition fmt_wday_e (days : Z) : Z := days_to_wday days false + 1.
+Definition fmt_wday_e7 (days : Z) : Z := days_to_wday days true + 1.
